@@ -389,7 +389,10 @@ def local_zone_rule(ctx, chk, rule):
     for node in iter_own_nodes(f.node):
         if isinstance(node, ast.Assign) and isinstance(node.targets[0], ast.Name):
             for test, pol in enclosing_tests(f.node, node):
-                if pol and "local" in ast.unparse(test) and isinstance(node.value, ast.Call):
+                from ..core.ctx import signed_atoms
+                under_local = any(isinstance(a, ast.Compare) and isinstance(a.left, ast.Constant) and a.left.value == "local" and (
+                    (p and isinstance(a.ops[0], ast.In)) or (not p and isinstance(a.ops[0], ast.NotIn))) for a, p in signed_atoms(test, pol))
+                if under_local and isinstance(node.value, ast.Call):
                     chk.ob(rule, "timestamp: the zone used for TIMEZONE='local' is get_localzone()", ast.unparse(node.value) == "get_localzone()",
                            "is %s" % ast.unparse(node.value), key={"function": f.key, "construct": "timestamp local zone"},
                            file=f.file, function=f.qual, line=node.lineno)
